@@ -441,6 +441,22 @@ fn biased_len(r: &mut Rng, cap: usize, term_len: usize, fill_hint: usize) -> usi
     }
 }
 
+/// Sometimes the metric's own bytes end with, start with or contain the line terminator: the writer has to pass them
+/// through untouched all the same (the model treats metric bytes as opaque).
+fn with_terminator_inside(r: &mut Rng, mut m: Vec<u8>, term: &[u8]) -> Vec<u8> {
+    if term.is_empty() || m.len() < term.len() || !r.chance(1, 8) {
+        return m;
+    }
+    let n = m.len();
+    let at = match r.below(4) {
+        0 => 0,
+        1 => r.usize_below(n - term.len() + 1),
+        _ => n - term.len(),
+    };
+    m[at..at + term.len()].copy_from_slice(term);
+    m
+}
+
 fn unique_metric(idx: usize, len: usize) -> Vec<u8> {
     let head = format!("m{}.", idx);
     let mut v = head.into_bytes();
@@ -503,7 +519,8 @@ fn random_case(j: &mut Judge, r: &mut Rng, faults: bool, replay: Vec<(&str, Stri
                 }
                 fill_hint += req;
             }
-            ops.push(POp::Emit(unique_metric(k, len)));
+            let m = unique_metric(k, len);
+            ops.push(POp::Emit(with_terminator_inside(r, m, term.as_bytes())));
         }
     }
     let random = if faults {
@@ -640,7 +657,8 @@ fn mode_spy(j: &mut Judge) {
                     }
                     fill_hint += req;
                 }
-                let m = unique_metric(k, len);
+                // (ASCII metrics only: the sink takes a &str, and a newline must not cut a multi-byte character)
+                let m = if k % 3 != 0 { with_terminator_inside(&mut r, unique_metric(k, len), b"\n") } else { unique_metric(k, len) };
                 let ms = String::from_utf8(m.clone()).unwrap();
                 (Op::Emit(m), io_res_emit(panics::guard(|| sink.emit(&ms))))
             };
